@@ -694,6 +694,9 @@ func revocationDialStream(pool [][]byte) {
 				impl = "dialled:" + ipList(targets) + ":" + vh.Bool(conn != nil && err == nil)
 			}
 			r.Case("revdial", []string{hostList(hosts), vh.Hex([]byte(host)), answerArg(answer, fail), scriptArg(script)}, impl)
+			if bad != "" {
+				r.OracleFail("revocation-dialled-non-address", in, bad)
+			}
 			allowed := hostAllowed(hosts, host)
 			if fail && len(rec.calls) > 0 {
 				r.OracleFail("revocation-dialled-unresolved-address", in, "resolver failed but something was dialled")
@@ -788,6 +791,9 @@ func imageBoxStream(pool [][]byte) {
 				impl = "dialled:" + ipList(targets) + ":" + vh.Bool(conn != nil)
 			}
 			r.Case("imgdial", []string{answerArg(answer, false), "0"}, impl)
+			if bad != "" {
+				r.OracleFail("imagebox-dialled-non-address", in, bad)
+			}
 			dialOracle("imagebox", in, false, answer, targets, ports, port, calls)
 			if goSpec(a) {
 				r.Count("class:imgdial-literal-private")
@@ -859,12 +865,21 @@ func urlFields(s string) (*url.URL, []string) {
 
 // independent reading of a URL string: scheme and whether the authority carries userinfo
 func rawSchemeAndCreds(s string) (scheme string, creds bool) {
-	i := strings.Index(s, ":")
-	if i < 0 {
-		return "", false
+	rest := s
+	if i := strings.Index(s, ":"); i > 0 {
+		isScheme := true
+		for k := 0; k < i; k++ {
+			c := s[k]
+			letter := (c >= 'a' && c <= 'z') || (c >= 'A' && c <= 'Z')
+			if !(letter || (k > 0 && ((c >= '0' && c <= '9') || c == '+' || c == '-' || c == '.'))) {
+				isScheme = false
+			}
+		}
+		if isScheme {
+			scheme = strings.ToLower(s[:i])
+			rest = s[i+1:]
+		}
 	}
-	scheme = strings.ToLower(s[:i])
-	rest := s[i+1:]
 	if !strings.HasPrefix(rest, "//") {
 		return scheme, false
 	}
@@ -888,6 +903,32 @@ func urlStream(pool [][]byte) {
 			r.OracleFail(who+"-dial-context-bypassed", map[string]any{"client": who}, "transport does not dial exclusively through DialContext")
 		} else {
 			r.OracleOK()
+		}
+	}
+	// the wiring of the real transports: a loopback literal must be refused by the transport's own
+	// DialContext before any dial (on the unchanged code nothing touches the network here: literals
+	// need no DNS and validation fails first)
+	for who, c := range map[string]*http.Client{"revocation": revClient, "imagebox": imgClient} {
+		tr, ok := c.Transport.(*http.Transport)
+		if !ok || tr.DialContext == nil {
+			continue
+		}
+		for _, lit := range []string{"127.0.0.1:9", "[::1]:9", "[::ffff:127.0.0.1]:9"} {
+			in := map[string]any{"fn": "transport-dial", "client": who, "addr": lit}
+			guard("transport-dial", in, func() {
+				ctx, cancel := context.WithTimeout(context.Background(), 500*time.Millisecond)
+				defer cancel()
+				conn, err := tr.DialContext(ctx, "tcp", lit)
+				if conn != nil {
+					conn.Close()
+				}
+				var op *net.OpError
+				if err == nil || errors.As(err, &op) {
+					r.OracleFail(who+"-client-dials-unchecked", in, fmt.Sprint("the transport of the real client dialled a loopback literal: ", err))
+				} else {
+					r.OracleOK()
+				}
+			})
 		}
 	}
 	n := r.Pick(3000, 40000)
@@ -996,6 +1037,7 @@ func e2eStream(pool [][]byte) {
 		}
 		var hops []hop
 		var allow []string
+		used := map[string]bool{}
 		for j := 0; j < length; j++ {
 			h := hop{host: fmt.Sprintf("h%d.chain%d.test", j, i), kind: "ok"}
 			if j > 0 || r.Rand.Intn(4) == 0 {
@@ -1017,12 +1059,23 @@ func e2eStream(pool [][]byte) {
 					}
 				}
 			}
+			// addresses are unique within a chain so that a dial can be attributed to its hop
+			fresh := func(gen func() []byte) []byte {
+				for {
+					a := gen()
+					key := string(canonTarget(a))
+					if !used[key] {
+						used[key] = true
+						return a
+					}
+				}
+			}
 			k := 1 + r.Rand.Intn(3)
 			for x := 0; x < k; x++ {
-				h.answer = append(h.answer, randPublic())
+				h.answer = append(h.answer, fresh(randPublic))
 			}
 			if h.kind == "private" {
-				h.answer[r.Rand.Intn(k)] = randPrivate(pool)
+				h.answer[r.Rand.Intn(k)] = fresh(func() []byte { return randPrivate(pool) })
 			}
 			hops = append(hops, h)
 		}
